@@ -954,6 +954,14 @@ fn check_inner<P: Prop>(a: &CheckArgs, meta: &Meta, runs: u64, dir: &Path, start
     if !stuck.is_empty() {
         println!("note: reach probes at zero in this run: {:?}", stuck);
     }
+    if fresh_total > 0 {
+        // a violation with its replay file is the verdict; trouble the harness had on the way
+        // (workers that died on other cases) is reported but does not change it
+        for e in &harness_errors {
+            eprintln!("note (harness): {e}");
+        }
+        return 1;
+    }
     if !harness_errors.is_empty() {
         for e in &harness_errors {
             eprintln!("HARNESS-ERROR: {e}");
@@ -964,11 +972,7 @@ fn check_inner<P: Prop>(a: &CheckArgs, meta: &Meta, runs: u64, dir: &Path, start
         eprintln!("HARNESS-ERROR: no runs executed");
         return 2;
     }
-    if fresh_total > 0 {
-        1
-    } else {
-        0
-    }
+    0
 }
 
 // ------------------------------------------------------------------ replay
